@@ -99,7 +99,7 @@ func runReady(sc RScenario, ca *fakeCA, settle, deadline time.Duration) rOutcome
 		mu.Unlock()
 	}
 	clk := newVClock(T0)
-	is := &issuer{ca: ca, clk: clk, gate: make(chan string), reqCh: make(chan int, 64)}
+	is := &issuer{ca: ca, clk: clk, gate: make(chan Item), reqCh: make(chan int, 64)}
 	is.onReq = func(idx int) { ev("req:" + strconv.Itoa(idx)) }
 	s := spiffe.New(spiffe.Options{Log: quietLog, RequestSVIDFn: is.fn})
 	spiffe.VerifSetClock(s, clk)
@@ -333,7 +333,8 @@ func runReady(sc RScenario, ca *fakeCA, settle, deadline time.Duration) rOutcome
 			select {
 			case <-is.reqCh:
 				ev("rep:" + map[string]string{"ok": "1", "fail": "0"}[op.Op])
-				is.gate <- op.Op
+				// gated certs are valid [-1 min, +1 h] from the moment of the answer
+				is.gate <- Item{Kind: op.Op, A: -int64(time.Minute), B: int64(time.Hour)}
 			case <-time.After(deadline):
 				out.NoRequest = true
 			}
